@@ -15,6 +15,15 @@ def close(a, b, tol=1e-9):
 
 
 def chk_single(inp):
+    # detector frames are unsigned integers: a bright pixel far from the origin is located exactly, whatever the storage type (threshold 0 and > 0)
+    for dt in ("uint8", "uint16", "int16", "uint32", "float32"):
+        for (H, W, y, x, v) in ((8, 8, 5, 6, 200), (16, 20, 15, 19, 250), (12, 12, 11, 3, 100)):
+            img = numpy.zeros((H, W), dtype=dt); img[y, x] = v
+            for thr in (0, 0.5):
+                c = CN.centre_of_gravity(img.copy(), threshold=thr)
+                cs = CN.centre_of_gravity(numpy.stack([img, img]), threshold=thr)
+                if not (close(numpy.asarray(c, dtype=float), [x, y]) and close(numpy.asarray(cs, dtype=float), [[x, x], [y, y]])):
+                    return bad("centre_of_gravity of a single bright %s pixel (value %d) at (y=%d,x=%d) in a %dx%d frame (threshold %g)" % (dt, v, y, x, H, W, thr), numpy.asarray(c, dtype=float).tolist(), [x, y])
     for (H, W) in ((5, 7), (8, 8), (1, 3)):
         for (y, x) in ((0, 0), (H - 1, W - 1), (H // 2, W // 3)):
             img = numpy.zeros((H, W)); img[y, x] = 2.5
@@ -64,6 +73,27 @@ def chk_brightest(inp):
                 return bad("brightest_pixel: stack differs from frames alone (fraction %g)" % frac, numpy.asarray(full).tolist(), each.tolist())
             if not close(CN.brightest_pixel(2.5 * st, frac), full):
                 return bad("brightest_pixel changes under positive scaling")
+    # camera frames are unsigned integers: same centroid as the float copy of the frame, single bright pixel located, scaling by an integer harmless
+    y, x = numpy.indices((8, 8))
+    spot = numpy.round(100 * numpy.exp(-((y - 3) ** 2 + (x - 4) ** 2) / (2 * 1.2 ** 2))) + 5
+    for dt in ("uint8", "uint16", "uint32", "int16", "int64", "float32"):
+        im = spot.astype(dt)
+        for frac in (0.1, 0.25):
+            want = CN.brightest_pixel(spot.astype(float), frac)
+            for got, what in ((CN.brightest_pixel(im, frac), "frame"), (CN.brightest_pixel(numpy.stack([im, im]), frac)[:, 1], "frame inside a stack"), (CN.brightest_pixel(im * im.dtype.type(2), frac), "frame times 2")):
+                if not close(numpy.asarray(got, dtype=float), want):
+                    return bad("brightest_pixel of a %s %s (fraction %g) differs from the centroid of the same frame held as float" % (dt, what, frac), numpy.asarray(got, dtype=float).tolist(), numpy.asarray(want).tolist())
+    # stacks with more than one leading axis: every frame as if processed alone, with a threshold too
+    st4 = rng.random((2, 3, 5, 6)) + 0.05
+    sq4 = rng.random((3, 3, 5, 5)) + 0.05
+    for stack in (st4, sq4):
+        for thr, mthr in ((0.0, 0), (0.3, 0), (0.5, 0.6)):
+            full = CN.centre_of_gravity(stack, threshold=thr, min_threshold=mthr)
+            for i in range(stack.shape[0]):
+                for j in range(stack.shape[1]):
+                    if not close(full[:, i, j], CN.centre_of_gravity(stack[i, j], threshold=thr, min_threshold=mthr)):
+                        return bad("centre_of_gravity(threshold=%g) of a %s stack: frame [%d, %d] differs from the frame processed alone" % (thr, list(stack.shape), i, j),
+                                   numpy.asarray(full[:, i, j]).tolist(), numpy.asarray(CN.centre_of_gravity(stack[i, j], threshold=thr, min_threshold=mthr)).tolist())
 
 
 def chk_shift(inp):
@@ -100,7 +130,8 @@ def chk_quad(inp):
 
 def chk_corr(inp):
     rng = numpy.random.default_rng(13)
-    for (ny, nx) in ((10, 10), (10, 16), (12, 8)):
+    # (sizes include lengths whose padded size has a large prime factor: 13, 17, 19, 23, 26, 34 ...)
+    for (ny, nx) in ((10, 10), (10, 16), (12, 8), (26, 26), (34, 20), (20, 46)):
         ref = numpy.zeros((ny, nx)); ref[ny // 2 - 1:ny // 2 + 1, nx // 2 - 1:nx // 2 + 1] = 1.0
         ref += 0.01
         for pad in (1, 2, 3):
@@ -131,7 +162,7 @@ def chk_corr(inp):
         if not close(c1, c2, 1e-9):
             return bad("correlation centroid changes when image and reference are multiplied by %g" % kf, numpy.asarray(c2).tolist(), numpy.asarray(c1).tolist())
     # odd sizes
-    for (ny, nx) in ((9, 9), (11, 7), (9, 12), (7, 10)):
+    for (ny, nx) in ((9, 9), (11, 7), (9, 12), (7, 10), (13, 13), (17, 19), (23, 13)):
         ref = numpy.zeros((ny, nx)); ref[ny // 2 - 1:ny // 2 + 2, nx // 2 - 1:nx // 2 + 2] = 1.0
         ref += 0.01
         for pad in (1, 2, 3, 4):
